@@ -80,7 +80,7 @@ def is_pure_accessor(path, j, raw):
     """small `&self` function without stores through references and without calls other than to std value helpers or other pure accessors:
     `is_connected()`, `is_disconnected()`, `disconnect_reason()`. They are inlined into their callers (and stay subjects of their own), so
     a status test reads the same whether it is written `self.is_disconnected()`, `matches!(self.connection_status, ..)` or `if let .. = ..`."""
-    if j.get("kind") not in ("Fn", "AssocFn") or "{closure" in path or j.get("argc") != 1 or len(j["blocks"]) > 14: return False
+    if j.get("kind") not in ("Fn", "AssocFn") or "{closure" in path or not (1 <= j.get("argc", 0) <= 2) or len(j["blocks"]) > 14: return False
     l1 = j["locals"][1]["ty"] if len(j["locals"]) > 1 else {}
     if not (l1.get("k") == "ref" and not l1.get("mut")): return False
     for b in j["blocks"]:
@@ -91,8 +91,7 @@ def is_pure_accessor(path, j, raw):
         if t["k"] == "call":
             nm = t.get("resolved") or t.get("callee") or ""
             if not (nm.endswith("::clone") or "PartialEq" in nm or "::eq" in nm or "::ne" in nm or "Option" in nm and nm.rsplit("::", 1)[-1] in ("is_some", "is_none")): return False
-        if t["k"] in ("assert", "drop"): 
-            if t["k"] == "assert": return False
+        if t["k"] == "assert" and not str(t.get("kind", "")).startswith("overflow"): return False
     return True
 
 
@@ -100,7 +99,8 @@ def inline_helpers(raw, max_rounds=6):
     helpers = {p for p, j in raw.items() if is_helper(p, j)}
     import re
     # pure accessors no rule names, plus the connection-status predicates (rules reason about the status enum itself, see rules/C12.py)
-    STATUS = ("RenetClient::is_disconnected", "RenetClient::is_connected", "RenetClient::is_connecting", "RenetClient::disconnect_reason")
+    STATUS = ("RenetClient::is_disconnected", "RenetClient::is_connected", "RenetClient::is_connecting", "RenetClient::disconnect_reason",
+              "SendChannelReliable::can_send_message", "SendChannelUnreliable::can_send_message")   # + the channels' budget predicate
     accessors = {p for p, j in raw.items() if p not in helpers and is_pure_accessor(p, j, raw)
                  and (p.endswith(STATUS) or p not in known_functions())}
     helpers |= accessors
@@ -428,9 +428,18 @@ class Fn:
         if len(ds) == 0:
             return ("undef", l)
         if len(ds) > 1:
-            outs = []
-            for bb, k, s in ds:
-                outs.append(self._origin_of_def(s, depth + 1))
+            # a local with several definitions (loop variable, conditionally assigned): a definition that refers back to the local itself
+            # (`i = i + 1`) is cut with ("rec", l), so the expression is finite and the same wherever it is computed from
+            stack = self.__dict__.setdefault("_phi_stack", [])
+            if l in stack:
+                return ("rec", l)
+            stack.append(l)
+            try:
+                outs = []
+                for bb, k, s in ds:
+                    outs.append(self._origin_of_def(s, depth + 1))
+            finally:
+                stack.pop()
             outs = _dedup(outs)
             if len(outs) == 1:
                 return outs[0]
@@ -447,7 +456,7 @@ class Fn:
                 ty = self.locals[a["place"]["local"]]["ty"]
                 if ty.get("k") == "ref" and ty.get("mut"): stateful = True
         if stateful:
-            return ("call", name, args, ("site", term["span"]["l"][0], term["span"]["l"][1], term.get("target")))
+            return ("call", name, args, ("site", term["span"]["l"][0], term["span"]["l"][1]))      # source position only: clones made by jump threading are the same call
         return ("call", name, args)
 
     def _origin_of_def(self, s, depth):
@@ -623,6 +632,8 @@ def fmt(o, depth=0):
         return f"{fmt(o[1])}[{fmt(o[2])}]"
     if k == "fn":
         return short(o[1])
+    if k == "rec":
+        return f"rec#{o[1]}"
     return str(o)
 
 
@@ -632,6 +643,7 @@ def stable(o):
     if not isinstance(o, tuple): return str(o)
     k = o[0]
     if k == "phi": return f"phi#{o[1]}"
+    if k == "rec": return f"phi#{o[1]}"
     if k == "param": return f"P{o[1]}({o[2] or ''})"
     if k == "const": return f"{o[1] if o[1] is not None else o[2]}"
     if k == "field": return f"{stable(o[1])}.{o[2]}"
